@@ -315,6 +315,16 @@ def _query(ctx, p, b, cont, c, r_q):
                     if s != tgt:
                         allowed.add((sb, s))
             outside = frozenset(y for y in range(fn.nb) if y not in L['body'])
+            # the scan runs to the end of the roadmap: the loop is left only when its iterator is exhausted (a `break` after the
+            # k-th hit, a cap on the list length, makes the list a prefix of the milestones that pass)
+            for (src_b, dst_b) in L['exits']:
+                si_ = fn.switch_info(src_b)
+                normal = si_ is not None and si_[0] and all(x[0] == 'discr' and any(
+                    m[0] == 'call' and m[1] == 'std::iter::Iterator::next' for m in x[1]) for x in si_[0])
+                if not normal and fn.blocks[dst_b]['term']['k'] != 'unreachable' and not fn.blocks[dst_b]['cleanup']:
+                    probs.append('the scan that fills the %s list can stop early at %s: milestones that pass the %s are left out, the query '
+                                 'can miss a solution or return a longer path' % (kind, fn.loc(src_b), 'radius and motion tests' if kind == 'start' else 'goal predicate'))
+                    break
             r = fn.reachable(L['header'], removed=frozenset(allowed), stop=outside | frozenset([bi]))
             if any(src_ in r and src_ != bi for (src_, _d) in L['back_edges']):
                 probs.append('a milestone that passes the %s can be left out of the %s list by an unrelated condition: '
